@@ -723,3 +723,10 @@ func (e *Engine) exclusive(fn *ssa.Function) [][2]int {
 	e.exclPairs[fn] = pairs
 	return pairs
 }
+
+// ExclusivePairs exposes the return summary used for pruning infeasible branches:
+// pairs (i,j) of results of fn of which at most one is non-nil on every return.
+func ExclusivePairs(p *core.Program, fn *ssa.Function) [][2]int {
+	e := &Engine{P: p, exclPairs: map[*ssa.Function][][2]int{}}
+	return e.exclusive(core.Canon(fn))
+}
